@@ -35,6 +35,11 @@ one() {
       C05|C06) bout=$(VERIF_OUT="$S.out" "$VERIF/bounded/idl/run.sh" "$P" quick "$S" 2>&1) || rc=1; out="$out"$'\n'"$bout";;
     esac
   fi
+  # a change that is caught only through a reproduced failing run needs the replay step: retry with it
+  if ! { [ $rc -eq 1 ] && echo "$out" | grep -q "^VIOLATION property=$P"; }; then
+    out2=$(VERIF_NO_REPLAY= VERIF_OUT="$S.out" "$VERIF/check" "$P" --repo "$S" 2>&1); rc2=$?
+    if [ $rc2 -eq 1 ] && echo "$out2" | grep -q "^VIOLATION property=$P"; then out="$out2"; rc=1; fi
+  fi
   if [ $rc -eq 1 ] && echo "$out" | grep -q "^VIOLATION property=$P"; then
     echo "SELFTEST ok: $name detected by $P ($(echo "$out" | grep -c '^VIOLATION') obligations)"
   else
